@@ -361,7 +361,12 @@ def _cps_program(shape):
         I.ext["jax.tree_util.tree_leaves"] = lambda I_, x: list(x)
         # a record point met while re-running a continuation (rebind) is an ordinary call of its callable
         # (RecordPoint.__call__ = initial_style_bind(record_p)(default_call): C36.initial_style_bind.* + JAX's bind -> impl)
-        I.overrides[TT + ":RecordPoint.__call__"] = lambda I_, self_, *a: I_.call(self_.fields["callable"], list(a), {})
+        rebound = []
+
+        def rp_call(I_, self_, *a):
+            rebound.append(self_)          # the record point goes through record_p again: the next staging sees it as a frame
+            return I_.call(self_.fields["callable"], list(a), {})
+        I.overrides[TT + ":RecordPoint.__call__"] = rp_call
         jaxpr = Rec(constvars=[], invars=[xv], eqns=eqns, outvars=[cur_var])
         ot = E.opaque("out_tree_value")
         x = E.opaque("x", "array")
@@ -408,6 +413,13 @@ def _cps_program(shape):
         E.require(f"C31.time_travel.stored_continuation_runs[{shape}]", st2 == "ok", raised=str(again))
         E.prove(f"C31.time_travel.stored_continuation_is_the_rest_of_f_with_the_call_recomputed[{shape}]",
                 I.to_u(again) == unfl(run(y.t, first)))
+        # "one frame per recorded call": _record finds the NEXT frame by staging this continuation, so every later record point
+        # must go through record_p again when the continuation runs - whether its arguments are traced or concrete
+        del rebound[:]
+        I.call(fr.fields["cont"], [y], {})
+        later = rps[1:]
+        E.prove(f"C31.time_travel.continuation_rebinds_every_later_record_point_in_order[{shape}]",
+                len(rebound) == len(later) and all(a is b for a, b in zip(rebound, later)))
         E.refutable(f"time_travel.cps.program[{shape}]", I.to_u(final) == unfl(x.t))
     return t
 
